@@ -1423,28 +1423,30 @@ class OptionStore:
                 raise MesonBugException(f'Tried to set an option for subproject {key.subproject} from {subproject}!')
 
             oldval = self.get_value_object(key)
-            if type(oldval) is not type(value):
-                self.set_option(key, value.value)
-            elif choices_are_different(oldval, value):
-                # If the choices have changed, use the new value, but attempt
-                # to keep the old options. If they are not valid keep the new
-                # defaults but warn.
-                # The new object yields to its parent like a newly added
-                # option, unless the user has set the old one for this
-                # subproject only.
+            retyped = type(oldval) is not type(value)
+            if retyped or choices_are_different(oldval, value):
+                # The option object is replaced.  The new one yields to its
+                # parent like a newly added option, unless the user has set
+                # the old one for this subproject only, and the options that
+                # yield to the old object now yield to the new one.
                 self.link_to_parent(key, value)
-                if oldval.parent is not None:
+                if not retyped and oldval.parent is not None:
                     value.yielding = value.yielding and oldval.yielding
                 self.options[key] = value
-                # The options that yield to the old object yield to the new one.
                 for child in self.options.values():
                     if child.parent is oldval:
-                        child.parent = value
-                try:
-                    value.set_value(oldval.value)
-                except MesonException:
-                    mlog.warning(f'Old value(s) of {key} are no longer valid, resetting to default ({value.value}).',
-                                 fatal=False)
+                        child.parent = value if type(child) is type(value) else None
+                        child.yielding = child.yielding and child.parent is not None
+                # If the choices have changed, use the new value, but attempt
+                # to keep the old options. If they are not valid keep the new
+                # defaults but warn.  An option of another type starts from
+                # its default.
+                if not retyped:
+                    try:
+                        value.set_value(oldval.value)
+                    except MesonException:
+                        mlog.warning(f'Old value(s) of {key} are no longer valid, resetting to default ({value.value}).',
+                                     fatal=False)
 
         # Find any extranious keys for this project and remove them
         potential_removed_keys = self.options.keys() - project_options.keys()
